@@ -80,7 +80,7 @@ func runWorkerWith(b *Build, race bool, args []string, raceLogPrefix string, tim
 	}
 	ctx, cancel := context.WithTimeout(context.Background(), timeout)
 	defer cancel()
-	cmd := exec.CommandContext(ctx, bin, args...)
+	cmd := exec.CommandContext(ctx, bin, b.withHot(args)...)
 	env := append(os.Environ(), "GOMAXPROCS="+procs)
 	if race {
 		env = append(env, "GORACE=log_path="+raceLogPrefix+" exitcode=66 history_size=3", "SIM_RACE_LOG="+raceLogPrefix)
